@@ -246,7 +246,7 @@ PROPS = {
              "pending), Close at a random point followed by NewBatch/Snapshot/Get/ExecuteBatch; after every label the "
              "settled counts (top height, blocked writers, returned nil / ErrClosed, answered notifications) are "
              "compared with the model; every tenth case is the stall scenario (persister wake-up test with a full ping "
-             "queue while the merger is between cycles): every API call must return within 3 s; non-trivial = some "
+             "queue while the merger is between cycles): every API call must return within 30 s; non-trivial = some "
              "writer was blocked by back-pressure, or the stall scenario",
         technique="Coq proof (invariants of the wait/notify protocol over any number of writers; Close final; bounded drain) + scenario lock-step on counts, with timeouts",
     ),
@@ -274,6 +274,8 @@ def relevant(kinds, spec):
         elif re.match(r"t?spec:held\d+", k):
             if spec["spec_held"]:
                 sp.append(k)
+        elif k == "spec:memory-fault":   # reading through an open handle faulted: always a violation
+            sp.append(k)
         elif k in spec["corr"]:
             corr.append(k)
         elif k in spec["spec"]:
